@@ -19,6 +19,7 @@ type SimReader struct {
 	Data        []byte
 	Chunks      []int // cycle of maximum bytes per Read; empty or 0 = unlimited
 	Zero        int   // every Zero-th call (Zero >= 2) returns (0, nil) instead of delivering; 0/1 = never
+	ZeroFirst   bool  // the very first call returns (0, nil) as well
 	EOFAt       int   // >=0: the stream ends cleanly after this many bytes (torn transfer)
 	ErrAt       int   // >=0: Read fails once this many bytes were delivered
 	Err         error // the error for ErrAt (default ErrInjected)
@@ -122,7 +123,7 @@ func (r *SimReader) Read(p []byte) (int, error) {
 		r.mu.Unlock()
 		return 0, io.EOF
 	}
-	if r.Zero >= 2 && r.calls%r.Zero == 0 {
+	if (r.Zero >= 2 && r.calls%r.Zero == 0) || (r.ZeroFirst && r.calls == 1) {
 		r.fault("zero-read")
 		r.mu.Unlock()
 		return 0, nil
